@@ -118,7 +118,7 @@ func VerifC01_InitiatorSignals() {
 		}
 	case 1:
 		resp := verifArbitraryResponse("resp")
-		resp.TransferId = uint64(chid.ID)
+		zz.SetInt(&resp.TransferId, uint64(chid.ID))
 		zz.Assume(resp.MessageType <= uint64(types.RestartExistingChannelRequestMessage))
 		zz.Assume(resp.RequestAccepted || !resp.IsValidationResult()) // rejections are the failure flow
 		zz.Assume(!resp.IsCancel())
